@@ -565,10 +565,15 @@ func registerIntrinsics(e *Engine) {
 			}
 			return tuple{v, iface{}}
 		}
-		if asInt(args[1]) != 10 || asInt(args[2]) != 64 {
-			e.abort(abortEngine, "ParseUint model supports base 10, 64 bits only")
+		if asInt(args[2]) != 64 {
+			e.abort(abortEngine, "ParseUint model supports 64 bits only")
 		}
-		res := e.callModel("ParseUint10", args[0]).(tuple)
+		var res tuple
+		if asInt(args[1]) == 10 {
+			res = e.callModel("ParseUint10", args[0]).(tuple)
+		} else {
+			res = e.callModel("ParseUintBase", args[0], args[1]).(tuple)
+		}
 		if e.branch(res[1]) {
 			return tuple{res[0], iface{}}
 		}
